@@ -45,16 +45,16 @@ def run(ctx):
     rng = random.Random(ctx.seed * 31 + 5)
     fixedprogs = [fc.gen.MC[k] for k in ('then', 'then2', 'exc', 'wall', 'wall1', 'wany', 'wany1', 'wall0', 'wallt', 'wanyt',
                                          'wany1', 'wany1', 'wany')]     # (repeated: more schedules of the narrow when_any race)
-    nq, npool = (60, 60) if thorough else (6, 6)
+    nq, npool = (200, 200) if thorough else (6, 6)
     progs_q = [fc.gen.random_program(rng, 'q') for _ in range(nq)]
     progs_p = [fc.gen.random_program(rng, 'pool') for _ in range(npool)]
     ctx.sample({'programs': progs_q[:2] + progs_p[:3]})
     if thorough:
-        fc.run_and_validate(ctx, exe, fixedprogs, WHAT, 'model programs, random schedules', n=40, seed=ctx.seed + 20, pct=3,
+        fc.run_and_validate(ctx, exe, fixedprogs, WHAT, 'model programs, random schedules', n=150, seed=ctx.seed + 20, pct=3,
                             spurious=True, fixed=fixed)
     tr = fc.run_and_validate(ctx, exe, progs_p + fixedprogs + progs_q, WHAT,
                              'model programs + random programs: real ThreadPool TaskSet NewThreadInvoker | manual queue '
-                             'ImmediateInvoker', n=8 if thorough else 4, seed=ctx.seed + 12, pct=3, spurious=True, fixed=fixed)[0]
+                             'ImmediateInvoker', n=10 if thorough else 4, seed=ctx.seed + 12, pct=3, spurious=True, fixed=fixed)[0]
     if tr:
         ctx.sample_trace(tr, 10, skip=40)
 
